@@ -313,7 +313,7 @@ Section Types.
     unfold handler. destruct o; try (apply rgC_bind; [|intros; exact I]).
     - apply init_auth_rgt. - apply continue_auth_rgt. - apply push_auth_rgt.
     - destruct g; try exact I; (apply rgC_bind; [|intros; exact I]); apply quiet_rgC.
-      + apply cc_grant_quiet. + apply code_grant_quiet. + apply refresh_grant_quiet. + apply ciba_grant_quiet.
+      + apply cc_grant_quiet. + apply code_grant_quiet. + apply refresh_grant_quiet. + apply jwt_bearer_grant_quiet. + apply ciba_grant_quiet.
     - apply quiet_rgC, introspect_quiet. - apply quiet_rgC, revoke_quiet. - apply quiet_rgC, userinfo_quiet.
     - apply quiet_rgC, token_info_quiet. - apply quiet_rgC, token_info_req_quiet.
     - apply init_back_auth_rgt. - apply quiet_rgC, notify_success_quiet. - apply quiet_rgC, notify_failure_quiet.
